@@ -9,6 +9,7 @@ import (
 	"go/types"
 	"os"
 	"path/filepath"
+	"runtime/debug"
 	"sort"
 	"strings"
 	"sync"
@@ -327,6 +328,9 @@ func (e *Engine) verifyFunc(fc *FuncContract) (res *FuncResult) {
 			case unsupportedErr:
 				res.Err, res.ErrKind = x, "unsupported"
 			case specErr:
+				if os.Getenv("GOWP_TRACE") != "" {
+					fmt.Fprintf(os.Stderr, "%s\n", debug.Stack())
+				}
 				res.Err, res.ErrKind = fmt.Errorf("%s.%s: %v", fc.Pkg, fc.Key, x), "stale"
 			case contractErr:
 				res.Err, res.ErrKind = x, "stale"
@@ -438,7 +442,7 @@ func (f *Frame) finish(nreq int) {
 		f.curEnv = env
 		for i, en := range fc.Ensures {
 			f.curClause = en
-			parts := splitConj(en.Expr)
+			parts := c.eng.splitConjDeep(fc.Pkg, en.Expr, 0)
 			for j, pe := range parts {
 				g := env.evalBool(pe)
 				label, text := fmt.Sprint(i), en.Text
